@@ -4,9 +4,9 @@ from sa.terms import mk, ZERO, ONE, show, walk, map_term, num
 from .common import engine, inventory
 from . import speedprofile as SP
 
-LEVEL = 'necessary-conditions'
+LEVEL = 'other'
 MANIFEST = {
-    'category': 'lint',
+    'category': 'other',
     'engine': 'svn',
     'technique': ('symbolic value numbering of InsertSpeed::insert_speed with a small vector theory (reads through push / insert / '
                   'remove / element stores become γ-terms): per mutation site, the value denoted on the affected interval is '
